@@ -272,6 +272,32 @@ func runC14(c *fw.Ctx) {
 				}
 			}
 		}
+		// the library's own validator of a partial state must agree with the sweep above: a memory store holding exactly the
+		// reachable nodes validates against its root and ComputeRoot finds that root; the same store with one node's content
+		// replaced by a node that does not hash to the key is refused
+		if nodes, _ := lab.Walk(st.db, m.GetRoot()); len(nodes) >= 2 {
+			ps := util.NewMemoryNodeDB()
+			for _, n := range nodes {
+				_ = ps.PutNode(n.Key, n.Node)
+			}
+			rootNode := nodes[0].Node
+			if err := ps.Validate(rootNode); err != nil {
+				c.Violate("", "%s: Validate refuses a memory store holding exactly the nodes reachable from the root: %v; history: %s", st.name, err, strings.Join(c.Trace(), "; "))
+				return
+			}
+			if cr, err := ps.ComputeRoot(); err != nil || cr == nil || !bytes.Equal(cr.GetHashBytes(), m.GetRoot()) {
+				c.Violate("", "%s: ComputeRoot on a memory store holding exactly the reachable nodes = %v, %v; the root is %x", st.name, cr, err, m.GetRoot())
+				return
+			}
+			victim := nodes[1+r.Intn(len(nodes)-1)]
+			forged := util.NewLeafNode(util.Path(""), util.Path("0f"), util.Sequence(version), &util.SecureSerializableValue{Buffer: []byte(fmt.Sprintf("forged-%d", c.Idx))})
+			ps.Nodes[util.StrKey(victim.Key)] = forged
+			if err := ps.Validate(rootNode); err == nil {
+				c.Violate("", "%s: Validate accepts a store in which the node under key %x does not hash to that key (its hash is %x)", st.name, victim.Key, forged.GetHashBytes())
+				return
+			}
+			c.Count("validator_agreements", 1)
+		}
 	default: // multi-round histories saved to the persistent store
 		disk := fmt.Sprintf("/verif-stub/C14/%d/%d/main", c.Seed, c.Idx)
 		defer grocksdb.DropDisk(disk)
@@ -333,7 +359,7 @@ func init() {
 		ID:           "C14",
 		EvalCounters: []string{"nodes_swept"},
 		Level:        "exploration",
-		Rule: "workloads: (a) direct insert/delete histories with version bumps on memory / layered / persistent / layered-over-persistent stores, (b) multi-round block histories saved to the persistent store (same generator as C04, every 8th with a fat round of several hundred changed nodes in one save); values are biased to separator bytes " +
+		Rule: "(The library's own partial-state validator must agree with the sweep: MemoryNodeDB.Validate/ComputeRoot accept a store holding exactly the reachable nodes and refuse it once one node is replaced by content that does not hash to its key.) workloads: (a) direct insert/delete histories with version bumps on memory / layered / persistent / layered-over-persistent stores, (b) multi-round block histories saved to the persistent store (same generator as C04, every 8th with a fat round of several hundred changed nodes in one save); values are biased to separator bytes " +
 			"(':', '::::', leading/trailing ':', 0x00, 200-byte binary, ':'+32 random bytes, hex-looking strings). Every 8 operations and at the end, every node of every store level involved is swept: stored key == GetHashBytes() == sha3(LE64(origin)‖body) recomputed by the harness' own parser from the stored encoding; " +
 			"CreateNode(enc) has the same hash and re-encodes to the same bytes; for a quarter of the nodes the version mark alone is advanced (origin != version) and the round trip repeated (fields preserved, hash unchanged, stored layout respected); after each direct history the state is synced with MergeDB from a donor store in which one node is planted under another node's key, and the target store is swept; the trie root re-computes bottom-up from stored encodings and reads the model content (for every saved root in (b)). distinct non-trivial = distinct stored encodings swept",
 		Cases: func(tier string) int {
@@ -345,7 +371,7 @@ func init() {
 		Run: runC14,
 		Floors: map[string]int64{"nodes_swept": 300000, "root_recomputations": 20000, "kind:leaf-emptypath": 1000, "kind:leaf-path": 1000, "kind:branch-value": 1000, "kind:branch-novalue": 1000, "kind:ext-len1": 1000, "kind:ext-long": 1000,
 			"kind:value-with-separator": 10000, "kind:ext-childhash-contains-separator-byte": 100, "distinct:branch_child_counts": 3,
-			"histories:memory": 100, "histories:persistent": 100, "histories:rounds-on-persistent": 1000, "fat_rounds": 100, "version_mark_round_trips": 50000, "miskeyed_donor_syncs": 3000},
+			"histories:memory": 100, "histories:persistent": 100, "histories:rounds-on-persistent": 1000, "fat_rounds": 100, "version_mark_round_trips": 50000, "validator_agreements": 4000, "miskeyed_donor_syncs": 3000},
 		Assumptions: []string{"node kinds are those the operation histories produce; the hash format is the one read from the pinned code (see C02)"},
 	})
 }
